@@ -79,6 +79,14 @@ Fixpoint skip_space (buf : list tok) : list tok :=
   | [] => []
   end.
 
+(* the skip behind a control word (Parser.expand_macro): like skip_space, but
+   it stops at a language token, which must not be lost *)
+Fixpoint skip_ctl (buf : list tok) : list tok :=
+  match buf with
+  | t :: buf' => if buf_is_space t && negb (is_lang t) then skip_ctl buf' else buf
+  | [] => []
+  end.
+
 (* Buffer.look_ahead: the next non-space token, buffer unchanged *)
 Definition look_ahead (buf : list tok) : option tok := hd_error (skip_space buf).
 
